@@ -17,7 +17,6 @@ package internal
 import (
 	"net/url"
 	"strings"
-	"unicode"
 )
 
 // URLKeyer describes the interface implemented by types that can generate a
@@ -106,9 +105,8 @@ func normalizePercentEncoding(s string) string {
 		if s[i] == '%' && i+2 < len(s) &&
 			isHexDigit(s[i+1]) && isHexDigit(s[i+2]) {
 			hexVal := fromHex(s[i+1])<<4 | fromHex(s[i+2])
-			r := rune(hexVal)
-			if isUnreserved(r) {
-				b.WriteRune(r)
+			if isUnreserved(hexVal) {
+				b.WriteByte(hexVal)
 			} else {
 				b.WriteString(percentEncodeUpper(hexVal))
 			}
@@ -139,10 +137,13 @@ func fromHex(c byte) byte {
 	return 0
 }
 
-// isUnreserved reports whether r is an unreserved character per RFC 3986 §2.3.
-func isUnreserved(r rune) bool {
-	return unicode.IsLetter(r) || unicode.IsDigit(r) ||
-		r == '-' || r == '.' || r == '_' || r == '~'
+// isUnreserved reports whether c is an unreserved character per RFC 3986 §2.3
+// (ASCII letters and digits, '-', '.', '_', '~'). Bytes outside ASCII are never
+// unreserved: "%E9" and a raw 0xE9 (or the UTF-8 encoding of U+00E9) are
+// different octets on the wire.
+func isUnreserved(c byte) bool {
+	return ('a' <= c && c <= 'z') || ('A' <= c && c <= 'Z') || ('0' <= c && c <= '9') ||
+		c == '-' || c == '.' || c == '_' || c == '~'
 }
 
 const hex = "0123456789ABCDEF"
